@@ -188,7 +188,7 @@ static double total_expanded(const State& st)
 		r += expanded(st.m[i], memo);
 	return r;
 }
-static const double GROW_LIMIT = 250;  // growth ops are skipped when the slots together already expand to more nodes
+static const double GROW_LIMIT = 1200; // growth ops are skipped when the slots together already expand to more nodes
 static const double WALK_LIMIT = 4000; // deep operations (==, clone, toString) are skipped on bigger operands
 
 // ---------------------------------------------------------------------------------------------
@@ -240,6 +240,12 @@ static void check_view(const Var& v, const VVal& m, Walk& w, const std::string& 
 		VF_CHECK(v.length() == (int)m.s.size(), where, ": string length() ", v.length(), ", want ", m.s.size());
 		const char* p = *v;
 		VF_CHECK(strlen(p) == m.s.size() && m.s == p, where, ": string content ", vf::show(p), ", want ", vf::show(m.s));
+		{
+			// "compares equal to every Var with the same content": a Var built now from the model's text, both operand orders
+			ExactC e(m.s);
+			Var fresh((const char*)e.p);
+			VF_CHECK(v == fresh && fresh == v && !(v != fresh) && !(fresh != v), where, ": Var == a freshly built Var(", vf::show(m.s), ") is false (", v == fresh, "/", fresh == v, ")");
+		}
 		break;
 	}
 	case VVal::ARR: {
@@ -326,6 +332,7 @@ struct Loc {
 	Var* v;
 	VVal* m;
 	VNode* parent; // container node directly holding this location (null for a slot)
+	Var* pv;       // the Var through which the parent container was reached (null for a slot)
 	int slot;
 	int steps;
 	std::string name;
@@ -356,6 +363,7 @@ static Loc resolve_from(Loc l, const vf::Op& o, int base, int nsteps, int want =
 				break;
 			int idx = mod(step, (long long)n);
 			l.parent = l.m->n.get();
+			l.pv = l.v;
 			l.v = &(*l.v)[idx];
 			l.m = &l.parent->arr[idx];
 			l.name += "[" + std::to_string(idx) + "]";
@@ -368,6 +376,7 @@ static Loc resolve_from(Loc l, const vf::Op& o, int base, int nsteps, int want =
 			auto it = l.m->n->obj.begin();
 			std::advance(it, idx);
 			l.parent = l.m->n.get();
+			l.pv = l.v;
 			l.v = &(*l.v)[String(it->first.c_str())];
 			l.m = &it->second;
 			l.name += "[" + vf::show(it->first) + "]";
@@ -389,7 +398,7 @@ static Loc resolve_from(Loc l, const vf::Op& o, int base, int nsteps, int want =
 static Loc resolve(State& st, const vf::Op& o, int base, int want = ANY)
 {
 	int s = mod(o.i(base), State::NS);
-	Loc l{st.slot[s], &st.m[s], 0, s, 0, "slot" + std::to_string(s)};
+	Loc l{st.slot[s], &st.m[s], 0, 0, s, 0, "slot" + std::to_string(s)};
 	return resolve_from(l, o, base + 1, 4, want);
 }
 
@@ -899,6 +908,208 @@ static VVal rerep(const VVal& m, unsigned long long& salt, int& leaf, int pertur
 }
 
 // ---------------------------------------------------------------------------------------------
+// large containers (capacity beyond the 2048-byte block size where Array switches allocation strategy)
+
+static std::string bigkey(int i)
+{
+	char b[16];
+	snprintf(b, sizeof b, "key%03d", i);
+	return b;
+}
+
+// kind 0: array from Array<int> (capacity == n); 1: array grown by << (capacity 192/384/768); 2: object from Dic<int>
+// (capacity == n); 3: object grown by [key] = (capacity 96/192/384). Element 1 / key001 optionally holds a small array.
+static VVal build_big(Var& out, int kind, int n, long long x, bool nested)
+{
+	VVal m = kind < 2 ? ref::varr() : ref::vobj();
+	Var local;
+	if (kind == 0) {
+		Array<int> a(n);
+		for (int i = 0; i < n; i++)
+			a[i] = int_of(x) + i;
+		local = Var(a);
+	}
+	else if (kind == 1) {
+		for (int i = 0; i < n; i++)
+			local << (int_of(x) + i);
+	}
+	else if (kind == 2) {
+		Dic<int> d;
+		for (int i = 0; i < n; i++)
+			d[String(bigkey(i).c_str())] = int_of(x) + i;
+		local = Var(d);
+	}
+	else {
+		for (int i = 0; i < n; i++)
+			local[String(bigkey(i).c_str())] = int_of(x) + i;
+	}
+	for (int i = 0; i < n; i++) {
+		if (kind < 2)
+			m.n->arr.push_back(ref::vint(int_of(x) + i));
+		else
+			m.n->obj[bigkey(i)] = ref::vint(int_of(x) + i);
+	}
+	if (nested && n > 1) {
+		VVal sub = ref::varr();
+		sub.n->arr = {ref::vint(1), ref::vstr("a string on the heap")};
+		Var sv(Var::ARRAY);
+		sv << 1 << "a string on the heap";
+		if (kind < 2) {
+			local[1] = sv;
+			m.n->arr[1] = sub;
+		}
+		else {
+			local[String(bigkey(1).c_str())] = sv;
+			m.n->obj[bigkey(1)] = sub;
+		}
+	}
+	out = local;
+	return m;
+}
+
+static int big_size(int kind, long long code) { return kind < 2 ? 130 + mod(code, 271) : 55 + mod(code, 146); }
+
+// removes elements/properties through `v` until `keep` are left; style 0: one removeAt(i, n) (arrays), 1: one by one from the
+// back, 2: one by one from the front, 3: alternating. The model node is updated in step.
+static void remove_down_to(Var& v, VVal& m, int keep, int style, long long x)
+{
+	if (m.k == VVal::ARR) {
+		auto& a = m.n->arr;
+		int len = (int)a.size();
+		if (keep >= len)
+			return;
+		if (style == 0) {
+			int i = mod(x, keep + 1), n = len - keep;
+			v.removeAt(i, n);
+			a.erase(a.begin() + i, a.begin() + i + n);
+			return;
+		}
+		for (int k = 0; (int)a.size() > keep; k++) {
+			int i = style == 1 ? (int)a.size() - 1 : style == 2 ? 0 : (k & 1) ? (int)a.size() - 1 : 0;
+			v.removeAt(i);
+			a.erase(a.begin() + i);
+		}
+	}
+	else if (m.k == VVal::OBJ) {
+		auto& o = m.n->obj;
+		for (int k = 0; (int)o.size() > keep; k++) {
+			auto it = style == 1 ? std::prev(o.end()) : style == 2 ? o.begin() : (k & 1) ? std::prev(o.end()) : o.begin();
+			if (style == 0) {
+				it = o.begin();
+				std::advance(it, mod(x + k * 7, (long long)o.size()));
+			}
+			std::string key = it->first;
+			v.remove(String(key.c_str()));
+			o.erase(key);
+		}
+	}
+}
+
+// a self-contained scenario on private Vars: a large container is built through one Var, then shared by further Vars (copies,
+// an element of another array, a property of an object), a clone is taken, elements are removed through ONE of the handles
+// down to a few, everything is read back through ALL handles after every step, and the handles are dropped in a generated order
+static void big_shared_scenario(const vf::Op& o, const std::string& tag)
+{
+	int kind = mod(o.i(0), 4), n = big_size(kind, o.i(1)), nshare = 1 + mod(o.i(2), 3), nest = mod(o.i(3), 3);
+	int keep = mod(o.i(5), 6), style = mod(o.i(6), 4);
+	long long x = o.i(8);
+	std::vector<Var*> h;
+	std::vector<VVal> hm;
+	struct Guard {
+		std::vector<Var*>& h;
+		~Guard()
+		{
+			for (Var* p : h)
+				delete p;
+		}
+	} guard{h};
+	auto check_local = [&](const char* after) {
+		std::map<const VNode*, int> hc;
+		for (auto& m : hm)
+			ref::count_handles(m, hc);
+		std::map<const VNode*, const void*> n2b;
+		std::map<const void*, const VNode*> b2n;
+		Walk w{&n2b, &b2n, &hc};
+		for (size_t i = 0; i < h.size(); i++)
+			check_view(*h[i], hm[i], w, vf::str(tag, " (large shared container) after ", after, ": handle", i));
+	};
+	h.push_back(new Var);
+	hm.push_back(VVal());
+	hm[0] = build_big(*h[0], kind, n, x, (o.i(3) & 8) != 0);
+	CLS(kind < 2 ? "bigshare.array" : "bigshare.object");
+	for (int i = 0; i < nshare; i++) { // plain copies: copy constructor and assignment
+		if (i & 1) {
+			h.push_back(new Var(int_of(x)));
+			*h.back() = *h[0];
+		}
+		else
+			h.push_back(new Var(*h[0]));
+		hm.push_back(hm[0]);
+	}
+	if (nest == 1) { // element of another (fresh, unshared) array
+		h.push_back(new Var(Var::ARRAY));
+		*h.back() << 7 << *h[0];
+		VVal outer = ref::varr();
+		outer.n->arr = {ref::vint(7), hm[0]};
+		hm.push_back(outer);
+	}
+	else if (nest == 2) { // property of another object
+		h.push_back(new Var(Var::OBJ));
+		(*h.back())["big"] = *h[0];
+		VVal outer = ref::vobj();
+		outer.n->obj["big"] = hm[0];
+		hm.push_back(outer);
+	}
+	size_t shared_handles = h.size();
+	// an independent deep copy that must keep the full content
+	h.push_back(new Var(h[0]->clone()));
+	hm.push_back(ref::deep(hm[0]));
+	check_local("sharing");
+	// removal through one generated handle (possibly the nested one)
+	size_t sel = (size_t)mod(o.i(4), (long long)shared_handles);
+	Var* via = h[sel];
+	if (nest == 1 && sel == shared_handles - 1)
+		via = &(*h[sel])[1];
+	else if (nest == 2 && sel == shared_handles - 1)
+		via = &(*h[sel])["big"];
+	remove_down_to(*via, hm[0], keep, style, x);
+	check_local("removal through one handle");
+	// Var == Var between two handles of the same container, and against the clone
+	VF_CHECK(*h[0] == *h[1] && *h[1] == *h[0], tag, ": two Vars sharing one container compare unequal after removals");
+	VF_CHECK(*h[0] != *h.back(), tag, ": the clone taken before the removals compares equal to the shortened container");
+	// a write through another handle is seen by all
+	if (hm[0].n->size() > 0) {
+		Var* other = h[(sel + 1) % shared_handles == shared_handles - 1 && nest ? 0 : (sel + 1) % shared_handles];
+		if (hm[0].k == VVal::ARR) {
+			(*other)[0] = "changed through another handle";
+			hm[0].n->arr[0] = ref::vstr("changed through another handle");
+		}
+		else {
+			std::string k0 = hm[0].n->obj.begin()->first;
+			(*other)[String(k0.c_str())] = "changed through another handle";
+			hm[0].n->obj[k0] = ref::vstr("changed through another handle");
+		}
+		check_local("write through another handle");
+	}
+	// a second round of removals through yet another handle, down to nothing or one
+	if (o.i(7) & 1) {
+		Var* second = h[(sel + 1) % shared_handles == shared_handles - 1 && nest ? 0 : (sel + 1) % shared_handles];
+		remove_down_to(*second, hm[0], mod(o.i(7) >> 1, 2), (style + 1) % 4, x + 1);
+		check_local("second removal through another handle");
+	}
+	// drop the handles in a generated order
+	unsigned long long order = uabs(o.i(7)) * 2654435761ULL + 12345;
+	while (!h.empty()) {
+		size_t k = (size_t)((order >> 16) % h.size());
+		order = order * 6364136223846793005ULL + 1442695040888963407ULL;
+		delete h[k];
+		h.erase(h.begin() + k);
+		hm.erase(hm.begin() + k);
+		check_local("dropping a handle");
+	}
+}
+
+// ---------------------------------------------------------------------------------------------
 // the interpreter
 
 static int cap_of(const Var& v, const VVal& m)
@@ -1348,6 +1559,10 @@ static void run_body(const std::string& part, const vf::Case& c, Flags& flags_ou
 			int i = mod(o.i(5), len + 3) - 1, n = mod(o.i(6), len + 3) - 1;
 			if (o.i(7) & 1)
 				n = 1;
+			else if ((o.i(7) & 24) == 8 && len > 8) { // one big removal that leaves only a few elements
+				i = mod(o.i(5), 3);
+				n = len - i - mod(o.i(6), 4);
+			}
 			bool valid = t.m->k == VVal::ARR && i >= 0 && n > 0 && i < len && i + n <= len;
 			if (t.m->k == VVal::ARR && st.shared(*t.m) && valid)
 				st.f.shared_mut = true;
@@ -1427,6 +1642,80 @@ static void run_body(const std::string& part, const vf::Case& c, Flags& flags_ou
 			}
 			else
 				CLS("ext.on_non_object_noop");
+		}
+		else if (nm == "sstr") {
+			// two string assignments in a row through generated overloads: the second text usually shorter than the first and
+			// both on the inline side of the 7/8-byte boundary (in-place overwrite of an inline string)
+			Loc t = resolve(st, o, 0);
+			if (t.steps == 0 && t.m->isCont() && t.m->n->size() && (o.i(7) & 8) == 0)
+				t = resolve_from(t, o, 1, 4, ANY, true);
+			const std::string &s1 = o.str(0), &s2 = o.str(1);
+			if (t.m->isCont() && st.shared(*t.m))
+				st.f.typechange_shared = true;
+			bool wasHeap = t.m->k == VVal::STR && !t.v->isPod();
+			if (wasHeap || (o.i(5) & 4))
+				*t.v = 0; // a heap string would stay a heap string
+			ExactC e1(s1), e2(s2);
+			if (o.i(5) & 1)
+				*t.v = (const char*)e1.p;
+			else
+				*t.v = String(e1.p);
+			bool inl = t.v->isPod();
+			if (o.i(5) & 2)
+				*t.v = (const char*)e2.p;
+			else
+				*t.v = String(e2.p);
+			*t.m = ref::vstr(s2);
+			CLS(inl && s2.size() < s1.size() ? "sstr.shorter_over_longer_inline" : inl && s2.size() < 8 ? "sstr.inline_over_inline" : "sstr.other");
+			check_value(*t.v, *t.m, tag + ": string assigned over a string");
+			Var fresh2 = String(e2.p);
+			VF_CHECK(*t.v == fresh2 && fresh2 == *t.v && !(*t.v != fresh2), tag, ": ", t.name, " == Var(String(", vf::show(s2), ")) is false after assigning it over ", vf::show(s1));
+			Var cl = t.v->clone(), cp = *t.v;
+			VF_CHECK(cl == fresh2 && fresh2 == cp, tag, ": clone/copy of ", t.name, " == fresh Var(", vf::show(s2), ") is false");
+			if (t.pv && t.parent && !t.parent->isObj) {
+				VF_CHECK(t.pv->contains(fresh2), tag, ": parent array does not contain() a fresh Var(", vf::show(s2), ") although ", t.name, " holds that text");
+				VF_CHECK(t.pv->contains(*t.v), tag, ": parent array does not contain() its own element");
+			}
+			// element-wise through the whole slot: the slot against a freshly built tree with the same content
+			const VVal& root = st.m[t.slot];
+			if (expanded(root) <= GROW_LIMIT && ref::equal(root, root) == ref::T) {
+				unsigned long long salt = (unsigned long long)o.i(6);
+				int leaf = 0;
+				VVal am = rerep(root, salt, leaf, -1);
+				Var av;
+				from_model(am, av);
+				VF_CHECK(*st.slot[t.slot] == av && av == *st.slot[t.slot], tag, ": slot", t.slot, " == a freshly built tree with the same content is false after the string assignment at ", t.name, ": ", ref::describe(root));
+				st.f.eq_cross = true;
+				CLS("sstr.whole_slot_compared");
+			}
+		}
+		else if (nm == "big") {
+			Loc t = resolve(st, o, 0);
+			if (too_big(st, "skipped.size.big"))
+				continue;
+			int kind = mod(o.i(5), 4), n = big_size(kind, o.i(6));
+			if (t.m->isCont() && st.shared(*t.m))
+				st.f.typechange_shared = true;
+			Var tmp;
+			VVal nv = build_big(tmp, kind, n, o.i(7), (o.i(7) & 8) != 0);
+			*t.v = tmp;
+			*t.m = nv;
+			CLS(kind < 2 ? "big.array" : "big.object");
+		}
+		else if (nm == "rmmany") {
+			Loc t = resolve(st, o, 0, (o.i(7) & 6) != 0 ? WANT_CONT : ANY);
+			if (!t.m->isCont())
+				continue;
+			int before = (int)t.m->n->size();
+			bool sh = st.shared(*t.m);
+			if (sh)
+				st.f.shared_mut = true;
+			remove_down_to(*t.v, *t.m, mod(o.i(5), 5), mod(o.i(6), 4), o.i(6));
+			CLS(before >= 128 || (t.m->k == VVal::OBJ && before >= 52) ? (sh ? "rmmany.large_shared" : "rmmany.large_unshared") : (sh ? "rmmany.small_shared" : "rmmany.small_unshared"));
+		}
+		else if (nm == "bigshare") {
+			big_shared_scenario(o, tag);
+			continue; // works on private Vars only
 		}
 		else if (nm == "clr") {
 			Loc t = resolve(st, o, 0, (o.i(7) & 6) != 0 ? WANT_CONT : ANY);
@@ -1809,6 +2098,29 @@ Gen<vf::Op> opGen()
 	auto eq = gen::map(gen::tuple(P, P, vf::irange<int>(0, 7)), [=](const std::tuple<std::vector<long long>, std::vector<long long>, int>& t) {
 		return mkop("eq", {std::get<0>(t), std::get<1>(t), one(std::get<2>(t))});
 	});
+	// two strings, mostly both shorter than 8 bytes and the second shorter than the first
+	auto inlineStr = [](int lo, int hi) {
+		return gen::mapcat(vf::irange<int>(lo, hi), [](int n) {
+			return gen::map(gen::container<std::vector<int>>((size_t)n, gen::weightedOneOf<int>({{8, vf::irange<int>('a', 'z')}, {1, vf::irange<int>(1, 255)}})), [](const std::vector<int>& v) {
+				std::string r;
+				for (int c : v)
+					r += (char)c;
+				return r;
+			});
+		});
+	};
+	auto twoStr = gen::weightedOneOf<std::pair<std::string, std::string>>(
+	    {{6, gen::mapcat(inlineStr(1, 7), [=](const std::string& a) {
+		      return gen::map(inlineStr(0, (int)a.size() - 1), [=](const std::string& b) { return std::make_pair(a, b); });
+	      })},
+	     {1, gen::mapcat(inlineStr(1, 7), [=](const std::string& a) { // the second is a proper prefix of the first
+		      return gen::map(vf::irange<int>(0, (int)a.size() - 1), [=](int n) { return std::make_pair(a, a.substr(0, (size_t)n)); });
+	      })},
+	     {2, gen::pair(strGen(), strGen())}});
+	auto sstr = gen::map(gen::tuple(P, small, V, small, twoStr), [=](const std::tuple<std::vector<long long>, long long, long long, long long, std::pair<std::string, std::string>>& t) {
+		return mkop("sstr", {std::get<0>(t), one(std::get<1>(t)), one(std::get<2>(t)), one(std::get<3>(t))}, {std::get<4>(t).first, std::get<4>(t).second});
+	});
+	auto bigshare = gen::map(gen::container<std::vector<long long>>(9, gen::cast<long long>(vf::irange<int>(0, 999))), [=](const std::vector<long long>& v) { return mkop("bigshare", {v}); });
 	return gen::weightedOneOf<vf::Op>({
 	    {8, pxys("set")},
 	    {10, two("asg", 5)},
@@ -1831,6 +2143,10 @@ Gen<vf::Op> opGen()
 	    {1, pxy("cidx")},
 	    {1, pxy("ckey")},
 	    {3, treeGen()},
+	    {5, sstr},
+	    {1, pxy("big")},
+	    {1, pxy("rmmany")},
+	    {1, bigshare},
 	});
 }
 
@@ -1855,7 +2171,7 @@ void vf_search(const vf::Args& a)
 {
 	[&]() {
 		int maxops = a.quick() ? 60 : 150;
-		long n = a.n(4000, 10000);
+		long n = a.n(3000, 10000);
 		int shown = 0;
 		vf::check_cases("hist", n, a.quick() ? 60 : 150, caseGen(maxops), [&](const vf::Case& c) {
 			vf::stats().cls(c.ops.size() < 10 ? "len.<10" : c.ops.size() < 40 ? "len.10-39" : "len.>=40");
